@@ -22,7 +22,8 @@ RULE = (
     "the statement lists for JSON: text (string, wstring), integers of any size (varint, filesize, uint16, uint32, "
     "unix_file_mode), float, boolean, datetime, bytes, digest, net.ipaddress, net.ipnetwork, uri, POSIX path, and T[] of "
     "each) written by the real JsonfileWriter under one of 6 configurations (descriptors on/off x indent None/0/2), the "
-    "options given either as a jsonfile:// URI query or as keyword arguments next to a plain x.json / x.jsonl path; "
+    "options given either as a jsonfile:// URI query or as keyword arguments next to a plain x.json / x.jsonl path, or in "
+    "BOTH with conflicting values (the explicit keyword argument wins on the pinned code, also an explicit indent=None); "
     "enumerated part: every cell field type x value class (none/empty/boundary/extreme/random/hostile: 10**40, NaN/inf, "
     "surrogate escapes, NUL, 70000-char text, empty lists) is forced into the first record of a sequence under rotating "
     "configurations; plus the same-name family: 2-3 descriptors that share their NAME but not their field list (a field kept with another "
@@ -31,7 +32,10 @@ RULE = (
     "the same name AND the same 32-bit identifier hash but different field lists (adjacent fields (t1,n1),(t2,n2) merged into "
     "(t2, n1+t1+n2)), same interleavings plus A A B B A B, through ONE writer; the grouped family: GroupedRecords of 1-3 "
     "members sharing some field names, distinct metadata per member, expected = the flat view computed from the members "
-    "(first member wins a shared name; first member's metadata; record name = group name); write histories: (1) ONE record "
+    "(first member wins a shared name; first member's metadata; record name = group name); the cross-name family: 2-3 types "
+    "with DIFFERENT names and the SAME 32-bit descriptor hash (characters moved between the tail of the type name and the "
+    "head of the first field name), same interleavings, flat / nested in a holder's record and record[] fields / inside "
+    "a grouped record; write histories: (1) ONE record "
     "object written 2-8 times with field assignments, in-place list operations (typed elements) and digest slot "
     "assignments between the writes, random flushes, one more modification after the last write, through JsonfileWriter "
     "itself, RecordWriter(x.json / x.jsonl / jsonfile://) and (sampled) rdump -w jsonfile:// - expected line k = the "
@@ -67,7 +71,7 @@ RULE = (
 )
 ASSUMPTIONS = [
     "only the field types the statement lists are generated: no windows paths, commands, dynamic, dictlist, stringlist, "
-    "nested records, net.ipv4.*, net.tcp/udp.Port (JSON cannot distinguish them by design or the statement does not promise them)",
+    "nested records (except the holder of the cross-name family, whose record / record[] fields round-trip on the pinned code), net.ipv4.*, net.tcp/udp.Port (JSON cannot distinguish them by design or the statement does not promise them)",
     "JSON has one NaN: all NaN bit patterns are treated as the same value (payload / sign of a NaN is not demanded)",
     "reading back is demanded only without indentation: the reader works line by line and the statement promises one "
     "document per line only when no indentation is requested; with indent (0 or 2) the text is only parsed and its keys checked",
@@ -86,7 +90,7 @@ ASSUMPTIONS = [
     "values come from the pools in verif/gen.py (lone surrogates outside U+DC80-DCFF and sub-second UTC offsets are not generated)",
 ]
 SHARDS = {"quick": 8, "thorough": 16}
-BUDGET_S = {"quick": 150, "thorough": 1800}
+BUDGET_S = {"quick": 150, "thorough": 3000}
 
 TEXT_TYPES = ("string", "wstring")
 INT_TYPES = ("varint", "filesize", "uint16", "uint32", "unix_file_mode")
@@ -274,6 +278,48 @@ def build_coincident(seed, k, order):
     return [b.record(descs[i]) for i in order], None
 
 
+def build_crossname(seed, k, order, shape):
+    """Records of `k` types with DIFFERENT names and the SAME 32-bit descriptor hash (the hash input is name + field
+    name + field type... without separators, so characters can move between the tail of the type name and the head of the
+    first field name: 'px/dir' + 'ectory' == 'px/direc' + 'tory'), interleaved as `order` says.
+    shape 'flat': the records themselves; 'nested': a holder record carrying them in a record and a record[] field, then
+    the flat ones; 'grouped': a grouped record of the first ones, then the flat ones.
+    -> (records, expected observations or None, reason-or-None)"""
+    from flow.record import GroupedRecord, RecordDescriptor
+
+    rng = random.Random(seed)
+    b = JBuilder(rng, thorough=False, max_depth=0)
+    letters = "abcdefghijkmnpqrstuvwxyz"
+    base = gen.rand_typename(rng) + "/" + "".join(rng.choice(letters) for _ in range(rng.randint(1, 3)))
+    moving = ["".join(rng.choice(letters) for _ in range(rng.randint(1, 3))) for _ in range(k - 1)]
+    fname = "".join(rng.choice(letters) for _ in range(rng.randint(1, 4)))
+    rest = [(rng.choice(SUPPORTED), "z%d" % i) for i in range(rng.randint(0, 3))]
+    first_type = rng.choice(SUPPORTED)
+    descs = []
+    for v in range(k):
+        # v chunks stay in the type name, the others lead the first field name
+        name = base + "".join(moving[:v])
+        first = "".join(moving[v:]) + fname
+        if gen.keyword_like(first) or gen.keyword_like(name.rpartition("/")[2]):
+            return None, None, "keyword"
+        descs.append(RecordDescriptor(name, [(first_type, first)] + rest))
+    if len({d.name for d in descs}) != k or len({d.identifier[1] for d in descs}) != 1:
+        return None, None, "hashes differ on this tree"
+    flat = [b.record(descs[i]) for i in order]
+    if shape == "flat":
+        return flat, None, None
+    if shape == "nested":
+        H = RecordDescriptor(gen.rand_typename(rng), [("record", "a"), ("varint", "n"), ("record[]", "l")])
+        holder = H.recordType(a=b.record(descs[order[0]]), n=len(order), l=[b.record(descs[i]) for i in order[1:]])
+        holder2 = H.recordType(a=b.record(descs[order[-1]]), n=0, l=[])
+        return [holder] + flat + [holder2], None, None
+    members = [b.record(descs[i]) for i in order[:3]]
+    gname = gen.rand_typename(rng)
+    recs = [GroupedRecord(gname, members)] + flat
+    exp = [expected_flat(gname, members)] + [observe.normalise(observe.obs(r)) for r in flat]
+    return recs, exp, None
+
+
 def expected_flat(gname, members):
     """Observation of the FLAT view of a grouped record, computed from the members themselves: fields in first-seen
     order, a shared field name takes the first member's type and value, metadata are the first member's."""
@@ -351,7 +397,7 @@ def generate(ctx):
             # every cell meets the read-back configuration (0), the fallback configuration (3) and one indented one
             cfg = (0, 3, indented(ctx, idx + rep // 3))[rep % 3]
             if ctx.mine(idx):
-                yield {"k": "cell", "t": t, "vc": vc, "cfg": cfg, "via": ("uri", "path", "pathl")[(idx // 7 + rep) % 3],
+                yield {"k": "cell", "t": t, "vc": vc, "cfg": cfg, "via": ("uri", "path", "both", "pathl")[(idx // 7 + rep) % 4],
                        "s": subseed("c14", ctx.seed, "cell", t, vc, rep), "big": bool(not ctx.quick and vc == "extreme" and rep == 0)}
             idx += 1
     # same-name family: every interleaving of 2..4 records of 2-3 descriptors that share a name but not a field list,
@@ -374,10 +420,10 @@ def generate(ctx):
                            "s": subseed("c14", ctx.seed, "coin", k, tuple(order), rep)}
                 idx += 1
     # write histories (1): one record object written repeatedly, modified between the writes
-    vias = ("uri", "path", "pathl", "direct")
+    vias = ("uri", "path", "pathl", "direct", "both")
     for i in range(ctx.scale(40, 300)):
         cfg = (0, 3, 0, 3, indented(ctx, i))[(i + ctx.shard) % 5]
-        yield {"k": "rewrite", "cfg": cfg, "via": vias[(i + ctx.shard) % 4], "rdump": bool(i % 10 == 0 and cfg in (0, 3)),
+        yield {"k": "rewrite", "cfg": cfg, "via": vias[(i + ctx.shard) % 5], "rdump": bool(i % 10 == 0 and cfg in (0, 3)),
                "s": subseed("c14", ctx.seed, "rewrite", ctx.shard, i), "deep": not ctx.quick}
     # write histories (2): records the encoder refuses, the application carries on with the same writer
     idx = 0
@@ -386,20 +432,29 @@ def generate(ctx):
             for j, pat in enumerate(fail_patterns(not ctx.quick)):
                 for cfg in (0, 3, indented(ctx, j + rep)):
                     if ctx.mine(idx + 1):
-                        yield {"k": "fail", "fk": fk, "pat": pat, "cfg": cfg, "via": vias[(j + rep + idx) % 4],
+                        yield {"k": "fail", "fk": fk, "pat": pat, "cfg": cfg, "via": vias[(j + rep + idx) % 5],
                                "s": subseed("c14", ctx.seed, "fail", fk, pat, cfg, rep)}
                     idx += 1
     # descriptor turnover: one type name, changing layouts, descriptors released and their addresses re-used
     for i in range(ctx.scale(4, 12)):
         yield {"k": "turnover", "cfg": (0, 3)[(i + ctx.shard) % 2], "rounds": ctx.scale(16, 48), "n": ctx.scale(3, 5), "via": "direct",
                "s": subseed("c14", ctx.seed, "turnover", ctx.shard, i)}
+    # cross-name family: DIFFERENT type names, SAME descriptor hash; flat, nested in record / record[], grouped
+    idx = 0
+    for rep in range(ctx.scale(1, 3)):
+        for j, (k, order) in enumerate(same_name_orders(ctx.scale(4, 5)) + [(2, [0, 1, 0]), (2, [0, 0, 1, 1, 0, 1])]):
+            for cfg in (0, 3, indented(ctx, j + rep)):
+                if ctx.mine(idx + 3):
+                    yield {"k": "cross", "kk": k, "order": order, "shape": ("flat", "nested", "grouped", "flat")[(j + rep) % 4], "cfg": cfg,
+                           "via": ("uri", "path", "pathl")[(j + rep + 2) % 3], "s": subseed("c14", ctx.seed, "cross", k, tuple(order), rep)}
+                idx += 1
     # grouped records: stored as their flat view
     for i in range(ctx.scale(30, 250)):
         yield {"k": "group", "cfg": (0, 3, 0, 3, indented(ctx, i))[(i + ctx.shard) % 5], "via": ("uri", "path", "pathl")[i % 3],
                "s": subseed("c14", ctx.seed, "group", ctx.shard, i), "deep": not ctx.quick}
     nmix = ctx.scale(150, 1000)
     for i in range(nmix):
-        yield {"k": "mix", "cfg": (i + ctx.shard) % (6 if ctx.quick else len(CONFIGS)), "via": ("uri", "path", "pathl")[i % 3],
+        yield {"k": "mix", "cfg": (i + ctx.shard) % (6 if ctx.quick else len(CONFIGS)), "via": ("uri", "path", "pathl", "both")[i % 4],
                "s": subseed("c14", ctx.seed, "mix", ctx.shard, i), "deep": not ctx.quick}
 
 
@@ -488,6 +543,14 @@ def nonfinite_is_the_known_mechanism(path, token, types, wslots):
         return False
     t = types[path[0]]
     w = wslots.get(path[0])
+    # the same mechanism inside a nested record (holder of the cross-name family): follow record / record[] fields down
+    if t == "record" and isinstance(w, list) and len(w) == 4 and w[0] == "rec":
+        return nonfinite_is_the_known_mechanism(path[1:], token, {n: ty for ty, n in w[2]}, observe.slots_of(w))
+    if t == "record[]" and len(path) >= 2 and isinstance(path[1], int) and isinstance(w, list) and w[0] == "list" and path[1] < len(w[2]):
+        e = w[2][path[1]]
+        if isinstance(e, list) and len(e) == 4 and e[0] == "rec":
+            return nonfinite_is_the_known_mechanism(path[2:], token, {n: ty for ty, n in e[2]}, observe.slots_of(e))
+        return False
     if t == "float" and len(path) == 1:
         return isinstance(w, list) and w[0] == "float" and token_for(_float_of(w)) == token
     if t == "float[]" and len(path) == 2 and isinstance(path[1], int):
@@ -567,7 +630,25 @@ def open_writer(ctx, case, descriptors, indent):
 
         kwargs = {"indent": indent, "descriptors": descriptors}
         return JsonfileWriter(path, **kwargs), path, {"target": "JsonfileWriter(<tmp>/%s)" % os.path.basename(path), "kwargs": kwargs}
-    if via == "uri":
+    if via == "both":
+        # both sources given with CONFLICTING values: the explicit keyword argument wins over the URI query (pinned
+        # behaviour, also for an explicit indent=None); which of the options are in conflict varies with the sub-seed
+        r = random.Random(case["s"] ^ 0x5EED)
+        q = []
+        mode = r.choice(["descriptors", "indent", "both", "both"])
+        if mode in ("descriptors", "both"):
+            q.append("descriptors=%s" % (r.choice(["false", "0", "False"]) if descriptors else r.choice(["true", "1", "True"])))
+            kwargs["descriptors"] = descriptors
+        elif not descriptors:
+            kwargs["descriptors"] = False
+        if mode in ("indent", "both"):
+            q.append("indent=%d" % r.choice([x for x in (0, 2, 4) if x != indent]))
+            kwargs["indent"] = indent
+        elif indent is not None:
+            kwargs["indent"] = indent
+        r.shuffle(q)
+        target = "jsonfile://" + path + "?" + "&".join(q)
+    elif via == "uri":
         q = []
         if indent is not None:
             q.append("indent=%d" % indent)
@@ -1008,6 +1089,11 @@ def execute(ctx, case):
         if records is None:
             ctx.event("coincident_family_skipped:" + why)
             return
+    elif case["k"] == "cross":
+        records, written, why = build_crossname(case["s"], case["kk"], case["order"], case["shape"])
+        if records is None:
+            ctx.event("cross_name_family_skipped:" + why)
+            return
     elif case["k"] == "group":
         records, written = build_grouped(case["s"], bool(case.get("deep")))
     else:
@@ -1046,6 +1132,9 @@ def execute(ctx, case):
     ctx.event("config:" + cfgname)
     ctx.event("via:" + case["via"])
     ctx.event("records_written", len(records))
+    if case["k"] == "cross":
+        ctx.event("cross_name_same_hash_sequences")
+        ctx.cell("cross-name", case["shape"], "k=%d" % case["kk"], "len=%d" % len(case["order"]), cfgname)
     if case["k"] == "coin":
         ctx.event("coincident_sequences")
         ctx.cell("coincident", "k=%d" % case["kk"], "len=%d" % len(case["order"]), cfgname)
@@ -1583,6 +1672,7 @@ def finish(ctx):
         ctx.require(ctx.events.get("coincident_sequences", 0) > 0, "no identifier-coincident descriptor sequence was run "
                     "(the variants did not share an identifier on this tree)")
         ctx.require(ctx.events.get("grouped_records_written", 0) > 0, "no grouped record was written")
+        ctx.require(ctx.events.get("cross_name_same_hash_sequences", 0) > 0, "no sequence of differently named types with one descriptor hash was run")
         ctx.require(ctx.events.get("rewrite_writes_of_the_same_object", 0) > 0, "no re-used record object was written")
         ctx.require(ctx.events.get("records_read_other_route", 0) > 0, "no file was read through a second route (gz / bz2 / file object)")
         ctx.require(sum(v for k, v in ctx.events.items() if k.startswith("reader_usage:")) > 0, "no reader-usage history was run")
